@@ -46,7 +46,9 @@ for sid, r in rows.items():
     if r["results"].get(r["prop"]):
         own += 1
     out.append("| %s | %s | %s | %s | %s |" % (sid, r["prop"], r["summary"][:150].replace("|", "/"), ", ".join(caught) or "-", ", ".join(missed) or "-"))
-out.append("\n%d seeded changes; %d caught by the check of the property they were written against, the rest by a neighbouring property's check (listed)." % (tot, own))
+none = [sid for sid, r in rows.items() if not any(r["results"].values())]
+other = tot - own - len(none)
+out.append("\n%d seeded changes; %d caught by the check of the property they were written against, %d only by a neighbouring property's check (listed), %d by no check that was run against them%s." % (tot, own, other, len(none), (": " + ", ".join(none)) if none else ""))
 text = "\n".join(out) + "\n"
 p = "/verif/DESIGN.md"
 s = open(p).read()
